@@ -369,7 +369,7 @@ namespace pika::detail {
             {
                 for (std::size_t num_core = 0; num_core < num_cores_socket[n]; ++num_core)
                 {
-                    std::size_t num_core_pus = t.get_number_of_core_pus(num_core);
+                    std::size_t num_core_pus = t.get_number_of_core_pus(num_core + core_offset);
                     std::size_t pu_index = next_pu_index[num_core];
                     bool use_pu = false;
 
@@ -407,8 +407,8 @@ namespace pika::detail {
                             "affinity mask for thread {} has already been set", num_thread);
                         return;
                     }
-                    num_pus[num_thread] =
-                        t.get_pu_number(num_core + used_cores, pu_indexes[num_core][num_pu]);
+                    num_pus[num_thread] = t.get_pu_number(
+                        num_core + used_cores + core_offset, pu_indexes[num_core][num_pu]);
                     affinities[num_thread] = t.init_thread_affinity_mask(
                         num_core + used_cores + core_offset, pu_indexes[num_core][num_pu]);
                     ++num_thread;
